@@ -214,15 +214,51 @@ def run_case(engine, case):
     return res
 
 
+def run_case_forked(engine, case, hang_s=600):
+    """Execute one case in a fresh fork of this (pristine) process: no case can see
+    library state left behind by another case, so every result replays from its case
+    alone. The child reports through a pipe; a dead child is a harness error."""
+    import pickle
+    import signal
+
+    r, w = os.pipe()
+    pid = os.fork()
+    if pid == 0:
+        code = 0
+        try:
+            os.close(r)
+            faulthandler.dump_traceback_later(hang_s, exit=True)
+            res = run_case(engine, case)
+            data = pickle.dumps(res)
+            with os.fdopen(w, "wb") as fd:
+                fd.write(data)
+        except BaseException:
+            traceback.print_exc()
+            code = 3
+        finally:
+            os._exit(code)
+    os.close(w)
+    chunks = []
+    with os.fdopen(r, "rb") as fd:
+        while True:
+            b = fd.read(1 << 16)
+            if not b:
+                break
+            chunks.append(b)
+    _, status = os.waitpid(pid, 0)
+    if status != 0 or not chunks:
+        return {"harness_error": "case child exited with status %s (hang > %ss, crash or "
+                                 "unpicklable result)" % (status, hang_s),
+                "viol": [], "digest": "", "n_eval": 0, "keys": [], "faults": {}, "probes": {},
+                "sim_time": 0}
+    return pickle.loads(b"".join(chunks))
+
+
 def _run_chunk(args):
     chunk, hang_s = args
     out = []
     for idx, case in chunk:
-        faulthandler.dump_traceback_later(hang_s, exit=True)
-        try:
-            out.append((idx, run_case(_ENGINE, case)))
-        finally:
-            faulthandler.cancel_dump_traceback_later()
+        out.append((idx, run_case_forked(_ENGINE, case, hang_s)))
     return out
 
 
@@ -262,7 +298,7 @@ def run_pool(engine_name, cases, jobs, hang_s=600, chunk=None):
 # minimisation (delta debugging on the real code)
 # --------------------------------------------------------------------------
 def _has(engine, case, prop, v):
-    r = run_case(engine, case)
+    r = run_case_forked(engine, case)
     if r.get("harness_error"):
         return False
     return any(
@@ -399,6 +435,8 @@ def run_check(prop, engine_name, tier, seed, jobs, level, extra_evidence=None):
           % (prop, engine_name, tier, seed, jobs, REPO), flush=True)
     cases = engine.plan(prop, tier, seed)
     hang_s = getattr(engine, "HANG_S", 600)
+    if hasattr(engine, "prepare"):
+        engine.prepare(cases, jobs)
     results = run_pool(engine_name, cases, jobs, hang_s=hang_s,
                        chunk=getattr(engine, "CHUNK", None))
 
@@ -421,23 +459,6 @@ def run_check(prop, engine_name, tier, seed, jobs, level, extra_evidence=None):
             probes[k] = probes.get(k, 0) + n
         sim_time += r["sim_time"]
 
-    # ---- determinism self-test (fresh interpreter, other hash seed)
-    det_n = min(len(cases), getattr(engine, "DETERMINISM_SAMPLE", {}).get(tier, 6))
-    det_ok = None
-    if det_n and not os.environ.get("QSIM_SKIP_DETERMINISM"):
-        rng = stream(seed, "determinism")
-        idxs = sorted(rng.sample(range(len(cases)), det_n))
-        hs = 1 + rng.randrange(4000)
-        got = fresh_digests(engine_name, [cases[i] for i in idxs], hs)
-        bad = [i for i, g in zip(idxs, got) if g != results[i]["digest"]]
-        if bad:
-            print("HARNESS-ERROR property=%s replay nondeterminism: case %d digest %s vs %s "
-                  "(fresh interpreter, PYTHONHASHSEED=%d)"
-                  % (prop, bad[0], results[bad[0]]["digest"],
-                     got[idxs.index(bad[0])], hs), flush=True)
-            return 2
-        det_ok = {"cases": det_n, "hashseed": hs}
-
     # ---- violations
     known = load_known()
     by_fp = {}
@@ -458,25 +479,52 @@ def run_check(prop, engine_name, tier, seed, jobs, level, extra_evidence=None):
                   flush=True)
             continue
         n_viol += 1
-        case = cases[i]
-        small, steps = minimise(engine, case, prop, v)
-        vv = v
-        rr = run_case(engine, small)
-        for x in rr["viol"]:
-            if x["oracle"] == v["oracle"] and x["class"] == v["class"]:
-                vv = x
-        path = write_replay(prop, engine_name, small, vv, short([small, fp]))
-        rc, out = replay_in_fresh_process(path)
-        if rc != 1:
-            print("HARNESS-ERROR property=%s violation %s/%s did not reproduce from %s "
-                  "in a fresh interpreter (rc=%s)\n%s"
-                  % (prop, v["oracle"], v["class"], path, rc, out[-1500:]), flush=True)
+        reported = False
+        last_out = ""
+        for i, v in by_fp[fp][:6]:
+            case = cases[i]
+            small, steps = minimise(engine, case, prop, v)
+            for cand in ([small, case] if small is not case else [case]):
+                vv = v
+                rr = run_case_forked(engine, cand)
+                for x in rr["viol"]:
+                    if x["oracle"] == v["oracle"] and x["class"] == v["class"]:
+                        vv = x
+                path = write_replay(prop, engine_name, cand, vv, short([cand, fp]))
+                rc, last_out = replay_in_fresh_process(path)
+                if rc == 1:
+                    print("  oracle=%s class=%s occurrences=%d minimise_steps=%d\n  detail: %s"
+                          % (vv["oracle"], vv["class"], len(by_fp[fp]), steps, vv.get("detail")),
+                          flush=True)
+                    print("VIOLATION property=%s replay=%s" % (prop, path), flush=True)
+                    reported = True
+                    break
+                os.unlink(path)
+            if reported:
+                break
+        if not reported:
+            print("HARNESS-ERROR property=%s violation %s/%s did not reproduce from its replay "
+                  "file in a fresh interpreter\n%s"
+                  % (prop, fp[0], fp[1], last_out[-1500:]), flush=True)
             return 2
-        print("  oracle=%s class=%s occurrences=%d minimise_steps=%d\n  detail: %s"
-              % (vv["oracle"], vv["class"], len(by_fp[fp]), steps, vv.get("detail")),
-              flush=True)
-        print("VIOLATION property=%s replay=%s" % (prop, path), flush=True)
         exit_code = 1
+
+    # ---- determinism self-test (fresh interpreter, other hash seed)
+    det_n = min(len(cases), getattr(engine, "DETERMINISM_SAMPLE", {}).get(tier, 6))
+    det_ok = None
+    if det_n and not os.environ.get("QSIM_SKIP_DETERMINISM"):
+        rng = stream(seed, "determinism")
+        idxs = sorted(rng.sample(range(len(cases)), det_n))
+        hs = 1 + rng.randrange(4000)
+        got = fresh_digests(engine_name, [cases[i] for i in idxs], hs)
+        bad = [i for i, g in zip(idxs, got) if g != results[i]["digest"]]
+        if bad and exit_code == 0:
+            print("HARNESS-ERROR property=%s replay nondeterminism: case %d digest %s vs %s "
+                  "(fresh interpreter, PYTHONHASHSEED=%d)"
+                  % (prop, bad[0], results[bad[0]]["digest"],
+                     got[idxs.index(bad[0])], hs), flush=True)
+            return 2
+        det_ok = {"cases": det_n, "hashseed": hs, "agree": not bad}
 
     # ---- a fault kind that never fired is a harness failure, not a pass
     expected = getattr(engine, "EXPECTED_FAULTS", {}).get(prop, [])
